@@ -286,7 +286,11 @@ func handleUpload(ucfg *tconfig.Config, uploadBucket storage.BucketHandle) conte
 		if r.Method == "POST" {
 			ctx := r.Context()
 			var report telemetry.Report
-			if err := json.NewDecoder(r.Body).Decode(&report); err != nil {
+			body, err := io.ReadAll(r.Body) // fails if the body exceeds the request size limit
+			if err != nil {
+				return content.Error(fmt.Errorf("invalid payload: %v", err), http.StatusBadRequest)
+			}
+			if err := json.Unmarshal(body, &report); err != nil {
 				return content.Error(fmt.Errorf("invalid JSON payload: %v", err), http.StatusBadRequest)
 			}
 			if err := validate(&report, ucfg); err != nil {
